@@ -7,6 +7,24 @@ ROOT = os.path.dirname(os.path.dirname(os.path.abspath(__file__)))
 
 # id -> (category, technique, text, note, design_ref)
 CHECKS = {
+    'C01': ('exploration',
+            'differential execution against CPython (dual module instances) over generated programs and enumerated skeletons',
+            'Generated programs covering the quantifier (random grammar stream + bounded-exhaustive control-flow skeletons with '
+            'every decision vector) are converted by the real transpiler through every entry point and run next to the '
+            'unconverted function in a second instance of the same module; return value, ordered side-effect log, post-state '
+            'of arguments/globals/closure cells and escaping exception class are compared. Conversion failures, including those '
+            'masked by the call wrapper fallback, are violations. Violations are delta-debugged to a small witness.',
+            'CPython is the reference; coverage is bounded by the grammar (nesting <= 4, ~26 statements, ints/lists/one object/one dict). '
+            'Holds on the programs executed, not beyond.',
+            'DESIGN.md 3/C01'),
+    'C03': ('exploration',
+            'contract monitor wrapped around the real ag__ operators, judging every dynamic invocation',
+            'Every if_stmt/while_stmt/for_stmt/if_exp/and_/or_/not_ call made by real generated code is intercepted: name/getter/'
+            'setter length and position-wise denotation (names evaluated in the calling frame), idempotent reads, write-back '
+            'neutrality, sentinel write-then-read, callback arities, nouts bounds plus poisoning of entries beyond nouts, loop '
+            'options against the directives the generator placed. Then the real operator runs.',
+            'Trusts frame evaluation of names (eval in f_globals/f_locals of the generated frame). Sentinel probe skipped when a composite entry is Undefined.',
+            'DESIGN.md 3/C03'),
     'C20': ('exploration',
             'exhaustive enumeration of the option space with an executing-code probe',
             'All 1024 option values are built in every spelling, round-tripped through the source form the '
